@@ -1,8 +1,20 @@
 (* Entry points evaluated by the correspondence harness (props/C13.py). *)
 From PV Require Export C13.Spec.
 
-Definition jv_zs (l : list Z) : jv := JL (map JZ l).
-Definition jv_sums (s : sums) : jv := let '(a, b, c) := s in JL [JZ a; JZ b; JZ c].
+Require Import Coq.Strings.HexString.
+(* Coq prints numerals slowly (milliseconds per 60-bit number, and per list element), so
+   results travel as strings: integers as "0x.." / "-0x..", large files as "x<hex bytes>";
+   props/C13.py (_decode) turns them back into the canonical int / bytes forms. *)
+Definition jz (z : Z) : jv := JC (HexString.of_Z z) [].
+Definition jv_zs (l : list Z) : jv := JL (map jz l).
+Definition hexd (n : Z) : ascii := ascii_of_N (Z.to_N (if n <? 10 then 48 + n else 87 + n)).
+Fixpoint hexs (l : bytes) : string :=
+  match l with
+  | [] => EmptyString
+  | c :: r => String (hexd (Z.shiftr c 4)) (String (hexd (Z.land c 15)) (hexs r))
+  end.
+Definition jpack (l : bytes) : jv := JC (String "x" (hexs l)) [].
+Definition jv_sums (s : sums) : jv := let '(a, b, c) := s in JL [jz a; jz b; jz c].
 Definition jv_row (r : maprow) : jv := JL [JB (w_addr r); JB (w_perms r); JB (w_path r); jv_zs (w_nums r)].
 Definition jv_rows (rs : list maprow) : jv := JL (map jv_row rs).
 Definition jv_grow (g : bytes * list Z) : jv := JL [JB (fst g); jv_zs (snd g)].
@@ -25,7 +37,7 @@ Definition run_statm_raw (psn pagesize mode : Z) (content : bytes) : jv :=
 Definition run_full (pagesize : Z) (has_rollup : bool) (rmode : Z) (ex : list bytes)
            (rl : rollup) (ms : list mapping) (r : statm) : jv :=
   let smaps := k_smaps ms in
-  JL [ JB smaps; JB (k_rollup rl); JB (k_statm r);
+  JL [ jpack smaps; jpack (k_rollup rl); JB (k_statm r);
        jv_outcome jv_zs (memory_full_info Alive pagesize has_rollup (fr rmode (k_rollup rl))
                                           (FContent smaps) (FContent (k_statm r)));
        (if forallb (wf_kernel (ex_of ex)) ms && wf_statm r
@@ -43,7 +55,7 @@ Definition run_maps (ex : list bytes) (ms : list mapping) : jv :=
   let smaps := k_smaps ms in
   let res := memory_maps Alive (ex_of ex) (FContent smaps) in
   let ok := forallb (wf_kernel (ex_of ex)) ms in
-  JL [ JB smaps;
+  JL [ jpack smaps;
        jv_outcome jv_rows res;
        jv_outcome jv_grouped (omap group_rows res);
        (if ok then JC "Val" [jv_rows (map spec_row ms)] else jnone);
@@ -53,14 +65,14 @@ Definition run_maps_raw (psn : Z) (ex : list bytes) (smode : Z) (smaps : bytes) 
   JL [ jv_outcome jv_rows res; jv_outcome jv_grouped (omap group_rows res) ].
 
 (* ---- memory_percent over the same kernel-shaped files *)
-Definition jv_ratio (q : Z * Z) : jv := JL [JZ (fst q); JZ (snd q)].
+Definition jv_ratio (q : Z * Z) : jv := JL [jz (fst q); jz (snd q)].
 Definition run_percent (pagesize : Z) (has_rollup : bool) (rmode : Z) (ex : list bytes)
            (rl : rollup) (ms : list mapping) (r : statm) (memtype : bytes) (total : Z) : jv :=
   let smaps := k_smaps ms in
   let mi := with_file Alive (FContent (k_statm r)) (memory_info pagesize) in
   let mfi := memory_full_info Alive pagesize has_rollup (fr rmode (k_rollup rl))
                               (FContent smaps) (FContent (k_statm r)) in
-  JL [ JB smaps; JB (k_rollup rl); JB (k_statm r);
+  JL [ jpack smaps; jpack (k_rollup rl); JB (k_statm r);
        jv_outcome jv_ratio (memory_percent memtype mi mfi total);
        (if forallb (wf_kernel (ex_of ex)) ms && wf_statm r
            && (negb has_rollup || negb (rmode =? 0) || (wf_rollup rl && consistent rl ms))
